@@ -317,12 +317,20 @@ func (f *g2lFn) assignTo(l ast.Expr, val string, define bool, ind int) []string 
 		}
 		return f.assignTo(x.X, fmt.Sprintf("%s.set %s %s", g2lPar(f.expr(x.X)), g2lPar(i), g2lPar(val)), false, ind)
 	}
+	if sx, ok := l.(*ast.StarExpr); ok { // go2lean_codec.go
+		if out, ok := f.starAssign(sx, val, ind); ok {
+			return out
+		}
+	}
 	f.fail("assignment to `%s`", f.src(l))
 	return nil
 }
 
 func (f *g2lFn) assign(x *ast.AssignStmt, ind int) []string {
 	define := x.Tok == token.DEFINE
+	if out, ok := f.outArgAssign(x, define, ind); ok { // go2lean_codec.go
+		return out
+	}
 	switch {
 	case x.Tok != token.ASSIGN && !define:
 		// op=
@@ -859,7 +867,7 @@ func (g *g2l) translateFunc(key string) (u *g2lUnit) {
 	}
 	if fd.Type.Results != nil {
 		for _, r := range fd.Type.Results.List {
-			if len(r.Names) > 0 {
+			if len(r.Names) > 0 && !f.namedResultsOK() { // go2lean_codec.go
 				f.fail("named results")
 			}
 		}
@@ -890,6 +898,7 @@ func (g *g2l) translateFunc(key string) (u *g2lUnit) {
 		addParam(sig.Params().At(i), false)
 	}
 	params = append(g.ctxParams(), params...)
+	remut = append(remut, f.namedResultDecls(fd)...) // go2lean_codec.go
 	var resT string
 	if void {
 		resT = ""
